@@ -230,7 +230,14 @@ func genParse(t *rapid.T) parseCase {
 		plen = -1 // no version byte at all
 	}
 	if plen >= 0 {
-		data = append([]byte{version}, rapid.SliceOfN(rapid.Byte(), plen, plen).Draw(t, "payload")...)
+		payload := rapid.SliceOfN(rapid.Byte(), plen, plen).Draw(t, "payload")
+		switch h.Pick(t, "plfill", 12, 1, 1) { // the all-zero and the all-ones address are addresses like any other
+		case 1:
+			payload = make([]byte, plen)
+		case 2:
+			payload = bytes.Repeat([]byte{0xff}, plen)
+		}
+		data = append([]byte{version}, payload...)
 	}
 	var s string
 	switch h.Pick(t, "symk", 8, 2, 1, 1) {
@@ -256,6 +263,9 @@ func genParse(t *rapid.T) parseCase {
 		s = bgen.FlipCase(t, s)
 	case 3: // network prefix in one case, the rest in the other
 		s = bgen.SplitCase(s, len(hrp), rapid.Bool().Draw(t, "upfx"))
+	}
+	if h.Pick(t, "trappart", 14, 1) == 1 { // a case-folding trap placed in a chosen part of an otherwise valid string
+		return parseCase{S: h.S(bgen.FoldTrapPart(t, s))}
 	}
 	ne := h.Pick(t, "nedits", 8, 3, 1)
 	for i := 0; i < ne; i++ {
